@@ -135,7 +135,8 @@ class _Included:
     def __init__(self, chk, prefix, only=None):
         self._chk, self._prefix = chk, prefix
         self._only = only
-        self.tier, self.args, self.pid = chk.tier, chk.args, chk.pid
+        # included lower layers always run at their quick tier: their deep exploration is the thorough tier of their own check
+        self.tier, self.args, self.pid = "quick", chk.args, chk.pid
         self.replayer = None
         self.explanation = ""
         self.bounds, self.trusted, self.assumptions = [], [], []
